@@ -101,12 +101,15 @@ def fgClauses (g : G) (kmax tclimit : Nat) (o : FgOut) : List (String × Bool) :
       (s!"same-number-of-subgroups-of-index-{k}", cI.isNone || cT.isNone || (cI.map (·.1)) == (cT.map (·.1))),
       (s!"same-number-of-conjugacy-classes-of-subgroups-of-index-{k}",
         cI.isNone || cT.isNone || (cI.map (·.2)) == (cT.map (·.2))) ]
+  -- HLT enumeration can need far more cosets than the order of the group; a second stage with a
+  -- large limit is run only where finiteness is already known
+  let bigLimit := 3000000
   let orderClauses : List (String × Bool) :=
     if g.dim == 2 then
       let (num, _) := curvature2d g
       if num > 0 then
-        let oI := orderTC pImpl 20000
-        let oT := orderTC pText 20000
+        let oI := orderTC2 pImpl 20000 bigLimit
+        let oT := orderTC2 pText 20000 bigLimit
         [ ("positive-curvature-group-finite", oI.isSome && oT.isSome),
           ("same-finite-order", optEq oI oT),
           ("spherical-order-is-4-over-curvature",
@@ -119,8 +122,8 @@ def fgClauses (g : G) (kmax tclimit : Nat) (o : FgOut) : List (String × Bool) :
       let oT := orderTC pText tclimit
       match oI, oT with
       | some a, some b => [("same-finite-order", a == b)]
-      | some a, none => [("same-finite-order", orderTC pText (60 * a + 4000) == some a)]
-      | none, some b => [("same-finite-order", orderTC pImpl (60 * b + 4000) == some b)]
+      | some a, none => [("same-finite-order", orderTC pText bigLimit == some a)]
+      | none, some b => [("same-finite-order", orderTC pImpl bigLimit == some b)]
       | none, none => []
     else []
   structural ++ tracing ++
